@@ -9,6 +9,9 @@ import BV.Base
 import BV.Spec.OneD
 import BV.Spec.RS
 import BV.Spec.BitSeq
+import BV.Spec.Datamatrix
+import BV.Spec.Qr
+import BV.Spec.Pdf417
 namespace BV.Oracle
 open BV
 
@@ -319,6 +322,66 @@ def oracleC18 (op : List String) (o : Obs) : Verdict :=
         else .pass
   | _ => .na
 
+/-! ### C01 QR -/
+
+def oracleC01 (op : List String) (o : Obs) : Verdict :=
+  match op with
+  | ["qr", c, level, mode] =>
+    let content := hexArg c
+    let level := (level.toNat?.getD 0) % 256
+    let mode := (mode.toNat?.getD 0) % 256
+    if level > 3 ∨ mode > 3 then .na      -- undefined constants: outside the property's quantifier
+    else if o.cls = "rej" then .na
+    else if o.cls ≠ "ok" then .fail "qr-crash" o.cls
+    else
+      let p := o.pic
+      if !p.twoColour then .fail "qr-colours" "pixels are not exactly the two scheme colours" else
+      match Spec.Qr.decode p.w p.h p.dark with
+      | .error e => .fail "qr-structure" e
+      | .ok info =>
+        if info.content ≠ content then .fail "qr-roundtrip" "decoded content differs"
+        else if info.level ≠ level then .fail "qr-level" "format information names another level"
+        else .pass
+  | _ => .na
+
+/-! ### C02 DataMatrix -/
+
+def oracleC02 (op : List String) (o : Obs) : Verdict :=
+  match op with
+  | ["dm", c] =>
+    let content := hexArg c
+    if o.cls = "rej" then .na      -- acceptance is C10's business
+    else if o.cls ≠ "ok" then .fail "dm-crash" o.cls
+    else
+      let p := o.pic
+      if !p.twoColour then .fail "dm-colours" "pixels are not exactly the two scheme colours" else
+      match Spec.Datamatrix.decode p.w p.h p.dark with
+      | .error e => .fail "dm-structure" e
+      | .ok info =>
+        if info.content = content then .pass else .fail "dm-roundtrip" "decoded content differs"
+  | _ => .na
+
+/-! ### C04 PDF417 -/
+
+def oracleC04 (op : List String) (o : Obs) : Verdict :=
+  match op with
+  | ["pdf", c, lvl] =>
+    let content := hexArg c
+    let lvl := (lvl.toNat?.getD 0) % 256
+    if o.cls = "rej" then .na
+    else if o.cls ≠ "ok" then .fail "pdf-crash" o.cls
+    else
+      let p := o.pic
+      if !p.twoColour then .fail "pdf-colours" "pixels are not exactly the two scheme colours" else
+      match Spec.Pdf417.decode p.w p.h p.dark with
+      | .error e => .fail "pdf-structure" e
+      | .ok info =>
+        if info.content ≠ content then .fail "pdf-roundtrip" "decoded data differs"
+        else if info.level ≠ lvl then .fail "pdf-level" "row indicators name another security level"
+        else if info.ecCount ≠ 2 ^ (lvl + 1) then .fail "pdf-eccount" "number of check words is not 2^(level+1)"
+        else .pass
+  | _ => .na
+
 /-! ### dispatcher -/
 
 def splitAt (sep : String) (l : List String) : List String × List String :=
@@ -331,6 +394,9 @@ def run (toks : List String) : String :=
     let (impl, _aux) := splitAt "<=" r1
     let o := parseObs impl
     let v := match prop with
+      | "C01" => oracleC01 op o
+      | "C02" => oracleC02 op o
+      | "C04" => oracleC04 op o
       | "C05" => oracleC05 op o
       | "C06" => oracleC06 op o
       | "C07" => oracleC07 op o
